@@ -277,11 +277,14 @@ class Program:
         import liesel.model as lsl
 
         # drop model-level spec nodes from an earlier build
-        self.nodes = [n for n in self.nodes if n.kind not in ("msum", "seed")]
+        self.nodes = [n for n in self.nodes if n.kind not in ("msum", "seed") and not n.role.startswith("_model")]
         wire = self.make_objects()
         gb = lsl.GraphBuilder(to_float32=to_float32)
         for ui in self.roots():
             gb.add(wire[ui])
+        ulp = self.desc.get("user_log_prob")
+        if ulp is not None:
+            gb.log_prob_node = wire[ulp]
         self.gb = gb
         model = gb.build_model(copy=copy)
         self.attach(model, copied=copy)
@@ -290,7 +293,7 @@ class Program:
     def attach(self, model, copied=False, names=None):
         """Bind spec nodes to the nodes of `model` (by object, or by name for copies) and add
         the model-level spec nodes (seed inputs, _model_* sums)."""
-        self.nodes = [n for n in self.nodes if n.kind not in ("msum", "seed")]
+        self.nodes = [n for n in self.nodes if n.kind not in ("msum", "seed") and not n.role.startswith("_model")]
         self.model = model
         if copied or names is not None:
             names = names or {n.sid: n.obj.name for n in self.nodes}
@@ -306,9 +309,22 @@ class Program:
                 s.obj = model.nodes[sname]
                 n.parents = [p for p in n.parents if self.nodes[p].kind != "seed"] + [s.sid]
         dists = [n for n in self.nodes if n.kind == "dist"]
+        ulp = self.desc.get("user_log_prob")
         for nm, sel in (("_model_log_lik", lambda d: d.flag == "observed"),
                         ("_model_log_prior", lambda d: d.flag == "parameter"),
                         ("_model_log_prob", lambda d: True)):
+            if nm == "_model_log_prob" and ulp is not None:
+                # user-supplied total: the model node forwards the user's node unchanged
+                from liesel.model.nodes import TransientNode
+
+                src = self.unit_nodes[ulp]["value"]
+                obj = model.nodes[nm]
+                if isinstance(obj, TransientNode):
+                    m = self._new("proxy", [src], [], nm, role=nm)
+                else:
+                    m = self._new("calc", [src], [0.0, 1.0], nm, role=nm)
+                m.obj = obj
+                continue
             m = self._new("msum", [d.sid for d in dists if sel(d)], [], nm, role=nm)
             m.obj = model.nodes[nm]
         self.by_name = {n.obj.name: n for n in self.nodes}
@@ -316,7 +332,7 @@ class Program:
         return self
 
     def names(self):
-        return {n.sid: n.obj.name for n in self.nodes if n.kind not in ("msum", "seed")}
+        return {n.sid: n.obj.name for n in self.nodes if n.kind not in ("msum", "seed") and not n.role.startswith("_model")}
 
     # ------------------------------------------------------------------ oracle
     def inputs_now(self):
@@ -392,7 +408,7 @@ class Program:
 # ---------------------------------------------------------------------------
 
 def gen_program(rng, *, n_units=(3, 12), allow_seed=True, allow_unnamed=True, allow_group=True,
-                p_dist=0.5, force_shape=None) -> dict:
+                p_dist=0.5, force_shape=None, p_user_lp=0.0) -> dict:
     n = int(rng.integers(n_units[0], n_units[1] + 1))
     shape = force_shape if force_shape is not None else ([] if rng.random() < 0.6 else [3])
     units = []
@@ -473,7 +489,11 @@ def gen_program(rng, *, n_units=(3, 12), allow_seed=True, allow_unnamed=True, al
     # group units must not be wired into other groups' kwargs in a way calc cannot handle: fine.
     # magnitude guard happens in the caller through evaluate().
     extra = [int(x) for x in rng.choice(len(units), size=int(rng.integers(0, 3)), replace=False)] if len(units) > 2 else []
-    return {"shape": shape, "units": units, "extra_roots": extra}
+    out = {"shape": shape, "units": units, "extra_roots": extra}
+    calcs = [ui for ui, u in enumerate(units) if u["kind"] == "calc" and not u.get("needs_seed")]
+    if p_user_lp and not shape and calcs and rng.random() < p_user_lp:
+        out["user_log_prob"] = int(rng.choice(calcs))
+    return out
 
 
 def sane(desc) -> bool:
